@@ -581,6 +581,15 @@ def r14_importer_does_not_touch_its_input(ctx, res):
     r3_input_not_modified(ctx, res, scope=('_add',), floor=20)
 
 
+def r15_remove_selects_what_the_specifier_means(ctx, res):
+    """remove(spec) deletes the lexicons find_lexicons selects, so "removal leaves every other lexicon unchanged" holds only if
+    that selection is the documented one: a bare id selects ONE version (LIMIT 1, most recently added first), a star pattern all
+    matches (no limit), each specifier of a list on its own - the analysis of C08-R2 / C08-R3 on find_lexicons."""
+    from .c08 import r2_limit_order, r3_match_shape
+    r2_limit_order(ctx, res)
+    r3_match_shape(ctx, res)
+
+
 RULES = [
     ('C05-R1', r1_cascade_closure, 40),
     ('C05-R2', r2_fk_enforcement, 3),
@@ -596,4 +605,5 @@ RULES = [
     ('C05-R12', r12_ownerless_children_on_own_parents, 4),
     ('C05-R13', r13_lexicon_lookups_by_id_and_version, 2),
     ('C05-R14', r14_importer_does_not_touch_its_input, 20),
+    ('C05-R15', r15_remove_selects_what_the_specifier_means, 4),
 ]
